@@ -15,6 +15,7 @@ import (
 	"reflect"
 	"strings"
 	"sync"
+	"sync/atomic"
 	"syscall"
 	"testing"
 	"time"
@@ -76,7 +77,9 @@ func (t *c20Task) Ready() <-chan struct{} { return t.readyC }
 
 func (t *c20Task) Run(ctx context.Context) error {
 	t.lg.add("run_enter %s", t.name)
-	t.lg.add("terminate_read_before %s %v", t.name, t.term())
+	if t.term != nil {
+		t.lg.add("terminate_read_before %s %v", t.name, t.term())
+	}
 	if t.ready == "now" {
 		close(t.readyC)
 	}
@@ -84,7 +87,9 @@ func (t *c20Task) Run(ctx context.Context) error {
 	select {
 	case <-ctx.Done():
 		t.lg.add("ctx_done_seen %s", t.name)
-		t.lg.add("terminate_read_after %s %v", t.name, t.term())
+		if t.term != nil {
+			t.lg.add("terminate_read_after %s %v", t.name, t.term())
+		}
 		if t.stop == "slow" {
 			<-t.stopGate
 		}
@@ -182,7 +187,7 @@ func c20Run(r *vlib.Run, c *c20Case, dir string) {
 	var tasks []Task
 	var sts []*c20Task
 	for i, tc := range c.Tasks {
-		st := &c20Task{name: fmt.Sprintf("task%d", i), run: tc.Run, stop: tc.Stop, ready: tc.Ready, lg: lg, term: srv.t.terminate,
+		st := &c20Task{name: fmt.Sprintf("task%d", i), run: tc.Run, stop: tc.Stop, ready: tc.Ready, lg: lg, term: c20TerminateFunc(r, srv),
 			readyC: make(chan struct{}), trigger: make(chan struct{}), stopGate: make(chan struct{}), err: c20Err(c.ErrKind, i)}
 		sts = append(sts, st)
 		tasks = append(tasks, st)
@@ -562,29 +567,84 @@ func TestVerifC20(t *testing.T) {
 	_ = errors.New
 }
 
-// c20TerminatorLock finds the mutex, if there is one, that guards the
-// terminate/reload decision inside the Server (an implementation detail: found
-// by reflection so that an implementation without one still builds and runs —
-// the lock-held scenario is then skipped and counted).
+// c20Terminator locates, by shape rather than by name, the piece of Server state
+// that records whether the last signal means terminate or reload: a struct (held
+// by value or by pointer in a Server field) with exactly one bool or atomic.Bool
+// and at most one mutex.  It returns a reader for the flag (taking the mutex
+// when there is one) and the mutex itself (nil when the flag is atomic).  With
+// neither found the terminate/reload oracles are skipped and counted: the
+// driver still builds and runs against a Server that keeps this state otherwise.
+func c20Terminator(srv *Server) (read func() bool, lock sync.Locker) {
+	sv := reflect.ValueOf(srv).Elem()
+	type cand struct {
+		flag  reflect.Value
+		lock  sync.Locker
+		named bool
+	}
+	var best *cand
+	for i := 0; i < sv.NumField(); i++ {
+		v := sv.Field(i)
+		for v.Kind() == reflect.Pointer {
+			if v.IsNil() {
+				break
+			}
+			v = v.Elem()
+		}
+		if v.Kind() != reflect.Struct || !v.CanAddr() {
+			continue
+		}
+		var flags []reflect.Value
+		var lk sync.Locker
+		other := 0
+		for j := 0; j < v.NumField(); j++ {
+			f := v.Field(j)
+			switch f.Type() {
+			case reflect.TypeOf(false), reflect.TypeOf(atomic.Bool{}):
+				flags = append(flags, f)
+			case reflect.TypeOf(sync.Mutex{}):
+				lk = (*sync.Mutex)(unsafe.Pointer(f.UnsafeAddr()))
+			case reflect.TypeOf(sync.RWMutex{}):
+				lk = (*sync.RWMutex)(unsafe.Pointer(f.UnsafeAddr()))
+			default:
+				other++
+			}
+		}
+		if len(flags) != 1 || other != 0 {
+			continue
+		}
+		c := &cand{flag: flags[0], lock: lk, named: strings.Contains(strings.ToLower(v.Type().Name()), "term")}
+		if best == nil || c.named && !best.named {
+			best = c
+		}
+	}
+	if best == nil {
+		return nil, nil
+	}
+	f, lk := best.flag, best.lock
+	if f.Type() == reflect.TypeOf(false) {
+		p := (*bool)(unsafe.Pointer(f.UnsafeAddr()))
+		return func() bool {
+			if lk != nil {
+				lk.Lock()
+				defer lk.Unlock()
+			}
+			return *p
+		}, lk
+	}
+	p := (*atomic.Bool)(unsafe.Pointer(f.UnsafeAddr()))
+	return p.Load, nil
+}
+
 func c20TerminatorLock(srv *Server) sync.Locker {
-	v := reflect.ValueOf(srv).Elem().FieldByName("t")
-	for v.IsValid() && (v.Kind() == reflect.Pointer || v.Kind() == reflect.Interface) {
-		if v.IsNil() {
-			return nil
-		}
-		v = v.Elem()
+	_, lk := c20Terminator(srv)
+	return lk
+}
+
+// c20TerminateFunc is what a task would be given to ask "terminate or reload?".
+func c20TerminateFunc(r *vlib.Run, srv *Server) func() bool {
+	if rd, _ := c20Terminator(srv); rd != nil {
+		return rd
 	}
-	if !v.IsValid() || v.Kind() != reflect.Struct || !v.CanAddr() {
-		return nil
-	}
-	for i := 0; i < v.NumField(); i++ {
-		f := v.Field(i)
-		switch f.Type() {
-		case reflect.TypeOf(sync.Mutex{}):
-			return (*sync.Mutex)(unsafe.Pointer(f.UnsafeAddr()))
-		case reflect.TypeOf(sync.RWMutex{}):
-			return (*sync.RWMutex)(unsafe.Pointer(f.UnsafeAddr()))
-		}
-	}
+	r.Count("terminate_flag_not_found", 1)
 	return nil
 }
